@@ -150,10 +150,12 @@ int main(int argc, char** argv) {
   if (wl != "c09") { fprintf(stderr, "unknown workload\n"); return 2; }
   for (long it = 0; it < count; it++) {
     try {
-      Problem P; bool nozero = false;
-      int fam = r.below(100);
+      Problem P; bool nozero = false, wide = false;
+      int fam = r.below(112);
       bool ok;
-      if (fam < 38) ok = make_problem(r, P);
+      if (fam >= 106) { ok = make_domain(r, P); wide = true; }      // restricted domain of definition (midpoints outside the domain)
+      else if (fam >= 100) { ok = make_pole(r, P); wide = true; }   // a pole between two zeros
+      else if (fam < 38) ok = make_problem(r, P);
       else if (fam < 62) ok = make_multi(r, P);
       else if (fam < 74) ok = make_singular(r, P);
       else if (fam < 82) ok = make_param(r, P);
@@ -171,7 +173,7 @@ int main(int argc, char** argv) {
       for (int rep = 0; rep < 6; rep++) {
         int style = r.below(5);
         IntervalVector box = box_around(r, c, sys.box, style);
-        if (r.coin(15)) box = sys.box;
+        if (r.coin(wide ? 60 : 15)) box = sys.box;
         if (r.coin(10)) { int i = r.below(n); double s = r.range(1, 8) / 8.0; box[i] = Interval(c[i] + s, c[i] + s + r.range(1, 8) / 8.0); }   // away from the zero
         double prec = r.coin() ? 1e-7 : (r.coin() ? 1e-3 : 0.0625), ratio = r.coin() ? 1e-4 : (r.coin() ? 0.5 : 0.01);
         // ---- the variables: all (square) or chosen by the library / at random (under-constrained)
